@@ -16,8 +16,7 @@ import colorsys, itertools, json, math
 import numpy as np
 import torch
 import re
-import os
-from harness.common import zlit, listlit, ALLOWED_AXIOM_PREFIXES, gate_scan, COQ, VERIF
+from harness.common import zlit, listlit, ALLOWED_AXIOM_PREFIXES
 from tracer.recipes import c15 as recipe
 from tracer import emit
 
@@ -26,7 +25,7 @@ PROPS = ['C15_mat3_err', 'C15_ycrcb_roundtrip', 'C15_ycrcb_matches_bt601', 'C15_
          'C15_xyz_matches_iec', 'C15_xyz_chromaticities', 'C15_lab_matrix_chromaticities', 'C15_gamma_roundtrip',
          'C15_gamma_decode_monotone', 'C15_gamma_endpoints', 'C15_gamma_encode_monotone_refuted',
          'C15_gamma_encode_monotone_partial', 'C15_gamma_knee', 'C15_gamma_matches_iec', 'C15_hsv_roundtrip',
-         'C15_grey_zero_chroma', 'C15_white_lab', 'C15_black_lab', 'C15_lab_roundtrip', 'C15_lab_f_matches_cie',
+         'C15_grey_zero_chroma', 'C15_white_lab', 'C15_black_lab', 'C15_lab_roundtrip', 'C15_lab_f_matches_cie', 'C15_lab_matches_cie', 'C15_lab_white_is_d65',
          'C15_lab_layout', 'C15_lab_layout_old_refuted', 'C15_third_stage_table', 'C15_third_stage_old_refuted',
          'C15_lms_roundtrip', 'C15_instance']
 TIE_STAGES = [['C15_TieTac'], ['C15_TieA', 'C15_TieB', 'C15_TieC', 'C15_TieD', 'C15_TieE'],
@@ -517,23 +516,6 @@ def correspondence_layout(ctx):
     ctx.obligation('correspondence:lab-layout(model = implementation on %d shapes x 2 functions)' % len(shapes), mism == 0, '%d disagreements' % mism)
 
 
-# ---------------------------------------------------------------- gate over the files C15 rests on
-def gate_c15(ctx):
-    """The syntactic gate (no Admitted / Axiom / Parameter / ... ; Variable/Hypothesis only inside Sections) over every
-    Coq file the C15 proofs depend on: theories/Base, theories/C15, tie/C15_*.  (ctx.gate() scans the whole shared tree,
-    where other properties may be mid-edit; nothing of that is imported here.)"""
-    bad, nfiles = [], 0
-    for d, pred in (('theories/Base', lambda f: True), ('theories/C15', lambda f: True), ('tie', lambda f: f.startswith('C15_'))):
-        for f in sorted(os.listdir(os.path.join(COQ, d))):
-            if f.endswith('.v') and pred(f):
-                p = os.path.join(COQ, d, f); nfiles += 1
-                bad += gate_scan(open(p).read(), os.path.relpath(p, VERIF))
-    flags = open(os.path.join(COQ, '_CoqProject')).read()
-    if re.search(r'type-in-type|impredicative-set|-vos|-noinit|bypass', flags):
-        bad.append('_CoqProject: forbidden flag')
-    return ctx.obligation('gate:no-admitted-no-axioms(%d files: Base, C15, tie/C15_*)' % nfiles, not bad and nfiles >= 10, '; '.join(bad[:10]))
-
-
 # ---------------------------------------------------------------- Print Assumptions, several files in parallel
 def theorems_parallel(ctx, module, names, nfiles=4):
     """Same obligations as ctx.theorems (one per theorem: it exists in the compiled module and depends only on
@@ -625,7 +607,7 @@ def run(ctx):
                     'general H x W are exercised by the direct oracles only (traced at 2 x 3 x 1 x 2)']
     ctx.assumptions += ['colours in gamut [0,1]^3 (round trips of HSV need only non-negative channels)',
                         'display primaries linearly independent (pseudo-inverse contract) for the LMS round trip']
-    gate_c15(ctx)
+    ctx.gate()
     ctx.ensure_theories(['theories/C15/Props.vo'])
     theorems_parallel(ctx, 'OdakV.C15.Props', PROPS)
     try:
